@@ -52,6 +52,38 @@ pub fn show_cerr(e: &CompilationError) -> String {
     )
 }
 
+/// Engine `wf`: the Lean well-formedness checker applied to the bytes the REAL compiler emitted
+/// (compiled while the case is generated), independent of the compiler model.
+pub struct WfEngine;
+
+impl Engine for WfEngine {
+    fn name(&self) -> &'static str {
+        "wf"
+    }
+    fn gen(&self, rng: &mut Rng, tier: Tier, idx: usize) -> Vec<String> {
+        for _ in 0..20 {
+            let size = if tier == Tier::Quick { rng.range(1, 6) } else { rng.range(1, 10) } as usize;
+            let m = gen_program(rng, &GenOpts { size, with_submodules: idx % 2 == 0 });
+            if let Ok(p) = compile(m, None) {
+                return vec![format!("cmp wfprog {}", show_program(&p))];
+            }
+        }
+        vec!["cmp wf mod([],[],[])".into()]
+    }
+    fn run_impl(&self, ops: &[String], out: &mut Vec<String>) {
+        CmpEngine.run_impl(ops, out)
+    }
+    fn tags(&self, _ops: &[String], impl_out: &[String]) -> Vec<String> {
+        impl_out.iter().map(|r| r.split(' ').next().unwrap_or("").to_string()).collect()
+    }
+    fn nontrivial(&self, ops: &[String], _o: &[String]) -> bool {
+        ops.iter().any(|o| o.len() > 400)
+    }
+    fn shrink_keep_prefix(&self, _ops: &[String]) -> usize {
+        0
+    }
+}
+
 pub struct CmpEngine;
 
 impl Engine for CmpEngine {
@@ -66,7 +98,8 @@ impl Engine for CmpEngine {
             let size = if tier == Tier::Quick { rng.range(1, 6) } else { rng.range(1, 10) } as usize;
             gen_program(rng, &GenOpts { size, with_submodules: idx % 2 == 0 })
         };
-        vec![format!("cmp compile {}", module_tok(&m))]
+        let t = module_tok(&m);
+        vec![format!("cmp compile {t}"), format!("cmp wf {t}")]
     }
 
     fn corpus(&self) -> Vec<Vec<String>> {
@@ -91,6 +124,22 @@ impl Engine for CmpEngine {
                         Err(e) => show_cerr(&e),
                     },
                 },
+                // expectation: every program the compiler returns is well-formed; the crate's own
+                // disassembler serves as an independent decoder (instruction count)
+                ["cmp", "wf", m] => match parse_module(m) {
+                    None => "bad-op".to_string(),
+                    Some(m) => match compile(m, None) {
+                        Ok(p) => format!("wf:ok n={}", p.disassemble_string().lines().count()),
+                        Err(_) => "wf:n/a".into(),
+                    },
+                },
+                ["cmp", "wfprog", "ok", ..] => {
+                    // the program text was produced by the real compiler at generation time
+                    let bc = a.iter().find_map(|x| x.strip_prefix("bc=")).unwrap_or("");
+                    let bytes: Vec<u8> = (0..bc.len() / 2).map(|i| u8::from_str_radix(&bc[2 * i..2 * i + 2], 16).unwrap()).collect();
+                    let p = CaoCompiledProgram { bytecode: bytes, ..Default::default() };
+                    format!("wf:ok n={}", p.disassemble_string().lines().count())
+                }
                 _ => "bad-op".into(),
             };
             out.push(line);
